@@ -353,8 +353,16 @@ func (f *fsmSnapshot) Release() {}
 // in a fashion that allows for concurrent updates while a snapshot is
 // happening.
 func (s *Server) Snapshot() (raft.FSMSnapshot, error) {
+	// Streams tombstoned during the replay of the Raft log have been deleted.
+	// They are only kept until the recovery is finished and must not be part of
+	// a snapshot taken in the meantime since restoring it would bring them back.
+	streams := make([]*stream, 0)
+	for _, stream := range s.metadata.GetStreams() {
+		if !stream.IsTombstoned() {
+			streams = append(streams, stream)
+		}
+	}
 	var (
-		streams      = s.metadata.GetStreams()
 		groups       = s.metadata.GetConsumerGroups()
 		protoStreams = make([]*proto.Stream, len(streams))
 		protoGroups  = make([]*proto.ConsumerGroup, len(groups))
